@@ -289,10 +289,12 @@ XSTab == [f \in XSForms |-> SetToSeq({q \in PkStatuses \X XSigStatuses : XSBuild
 OwnerSeq == SetToSeq(AllOwners)
 BasicIdx == {i \in DOMAIN OwnerSeq : OwnerSeq[i] \in BasicOwners}
 OwnerIdxFor(honestVec) == IF FullOwners \/ honestVec THEN DOMAIN OwnerSeq ELSE BasicIdx
-IdsOf(f, k, honestVec) == {<<f, k, id, o, v>> : id \in {"ok", "stale"}, o \in OwnerIdxFor(honestVec), v \in 1..3}
-SigIds == UNION {UNION {IdsOf(f, k, VecTab[f][k] = AllValid(Len(VecTab[f][k]))) : k \in DOMAIN VecTab[f]} : f \in SigForms}
-XSIds == UNION {UNION {IdsOf(f, k, XSTab[f][k] = <<"ok", "honest">>) : k \in DOMAIN XSTab[f]} : f \in XSForms}
-CaseIds == SigIds \cup XSIds
+TabLen(f) == IF f \in SigForms THEN Len(VecTab[f]) ELSE Len(XSTab[f])
+MaxTab == Max({TabLen(f) : f \in Forms})
+HonestAt(f, k) == IF f \in SigForms THEN VecTab[f][k] = AllValid(Len(VecTab[f][k])) ELSE XSTab[f][k] = <<"ok", "honest">>
+(* a filtered product, not a UNION of many small sets (TLC's UNION is quadratic on large results) *)
+CaseIds == {c \in Forms \X (1..MaxTab) \X {"ok", "stale"} \X (DOMAIN OwnerSeq) \X (1..3) :
+              c[2] <= TabLen(c[1]) /\ c[4] \in OwnerIdxFor(HonestAt(c[1], c[2]))}
 CaseOf(c) == IF c[1] \in SigForms THEN BuildSig(c[5], c[1], VecTab[c[1]][c[2]], c[3], OwnerSeq[c[4]])
              ELSE BuildXS(c[5], c[1], XSTab[c[1]][c[2]][1], XSTab[c[1]][c[2]][2], c[3], OwnerSeq[c[4]])
 
